@@ -176,29 +176,43 @@ def check_stream(ctx, items, obs, data, gz):
 
 
 def check_gzip_cuts(ctx, items, data):
+    """A gzip-compressed record file cut at any byte, opened by path AND handed over as a file object (the routes wrap the
+    decompressor differently): what is read is exactly the records whose frames lie completely inside the plaintext an
+    independent streaming decompressor (zlib) recovers from the cut file - none altered, none skipped."""
+    import zlib
+
     from flow.record import RecordReader
     want = [recgen.canon(recgen.obs_item(x, True)) for x in items]
+    item_ends = item_frame_ends(data, len(items))
     comp = gzip.compress(data, mtime=0)
     p = os.path.join(str(ctx.work), "cut.records.gz")
     step = 1 if ctx.tier == "thorough" else max(1, len(comp) // 60)
     for k in list(range(0, len(comp), step)) + [len(comp)]:
-        open(p, "wb").write(comp[:k])
-        got = []
         try:
-            with warnings.catch_warnings():
-                warnings.simplefilter("ignore")
-                rd = RecordReader(p)
-                for r in rd:
-                    got.append(r)
+            avail = zlib.decompressobj(31).decompress(comp[:k])
         except Exception:  # noqa
-            pass
-        ctx.count_case(("gzcut", len(comp), k, data[:24]))
-        gotc = [recgen.canon(recgen.obs_item(x, True)) for x in got]
-        if gotc != want[:len(gotc)]:
-            return "gzip file cut at %d of %d: a yielded record differs from the written ones" % (k, len(comp))
-        if k == len(comp) and len(gotc) != len(want):
-            return "complete gzip file: %d of %d records read" % (len(gotc), len(want))
-    os.unlink(p)
+            avail = b""
+        expected = sum(1 for e in item_ends if e <= len(avail))
+        open(p, "wb").write(comp[:k])
+        for route in ("path", "fileobj"):
+            got = []
+            try:
+                with warnings.catch_warnings():
+                    warnings.simplefilter("ignore")
+                    rd = RecordReader(p) if route == "path" else RecordReader(fileobj=io.BytesIO(comp[:k]))
+                    for r in rd:
+                        got.append(r)
+            except Exception:  # noqa
+                pass
+            ctx.count_case(("gzcut", route, len(comp), k, data[:24]))
+            gotc = [recgen.canon(recgen.obs_item(x, True)) for x in got]
+            if gotc != want[:len(gotc)]:
+                return "gzip file cut at %d of %d (%s): a yielded record differs from the written ones" % (k, len(comp), route)
+            if len(gotc) != expected:
+                return ("gzip file cut at %d of %d (%s): %d records read, but the frames of %d records are completely inside the %d "
+                        "plaintext bytes a streaming decompressor recovers" % (k, len(comp), route, len(gotc), expected, len(avail)))
+            if k == len(comp) and len(gotc) != len(want):
+                return "complete gzip file (%s): %d of %d records read" % (route, len(gotc), len(want))
     return None
 
 
